@@ -151,7 +151,7 @@ def s3_presence(ctx):
                     zero = v
         unread_test = [c for c, v, _ in p.conds if any(s_[0] == 'call' and s_[1][0] == 'fn' for s_ in T.subterms(c))
                        and fmt(c) not in ('transaction.asset in self.positions',)]
-        if zero is None and unread_test:
+        if zero is None:
             # whether to drop the position is decided by what a call answered (what the fill did to the exposure, as the position itself reports it): read the whole
             # step with that call followed to the end (s3_presence_through), once
             deferred.append(cond_str(p)[:80])
@@ -185,10 +185,17 @@ def s3_presence_through(ctx):
     judged = 0
     for p in ps:
         held = next((v for c, v, _ in p.conds if fmt(c) == 'transaction.asset in self.positions'), None)
-        if not held:
+        obj_ = p.heap.get(loc)
+        if held is None and obj_ is None:
             continue
-        post = lambda f_: p.heap.get(('attr', loc, f_), ('attr', loc, f_))
-        net_post = T.t_sub(post('buy_quantity'), post('sell_quantity'))
+        if not held and obj_ is not None and obj_[0] == 'new':
+            f_new = dict(obj_[2])
+            net_post = T.t_sub(f_new.get('buy_quantity', ZERO), f_new.get('sell_quantity', ZERO))         # the position just opened
+        elif held:
+            post = lambda f_: p.heap.get(('attr', loc, f_), ('attr', loc, f_))
+            net_post = T.t_sub(post('buy_quantity'), post('sell_quantity'))
+        else:
+            continue
         zero = None
         for c, v, _ in p.conds:
             if c[0] == 'cmp' and c[1] == '==' and ZERO in (c[2], c[3]):
@@ -197,8 +204,12 @@ def s3_presence_through(ctx):
                     zero = v
         dels = [w for w in heap_writes(p, 'positions') if w.how == 'del' or w.how.startswith('mut:pop')]
         if zero is None:
-            if dels:
-                ctx.undecided('C02.S3', what + ' [%s]' % cond_str(p)[:80], dels[0].site, 'deleted on a path that never compares the net quantity left behind (%s) with zero' % fmt(net_post)[:80])
+            unread = [c for c, v, _ in p.conds if any(s_[0] == 'call' and (s_[1][0] == 'fn' or s_[1] == ('ext', 'APPLY')) for s_ in T.subterms(c))]
+            if unread:
+                ctx.undecided('C02.S3', what + ' [%s]' % cond_str(p)[:80], fn.site(), 'decided by %s' % fmt(unread[0])[:100])
+            else:
+                ctx.violation('C02.S3', 'every path ends by testing whether the position\'s net quantity is zero [%s]' % cond_str(p)[-110:], fn.site(),
+                              'READ: no test `net_quantity == 0` of the stored position on this path (net quantity left behind: %s)' % fmt(net_post)[:80], key='C02.S3|test')
             continue
         judged += 1
         ctx.require(len(dels) == (1 if zero else 0), 'C02.S3', what + ' [%s]' % cond_str(p)[-110:], dels[0].site if dels else fn.site(),
